@@ -273,16 +273,154 @@ def alpha(toks):
     return out
 
 
+def parse_uses(toks):
+    """Top-level `use` declarations -> {local name: [full, path, segments]} (handles groups, `self`, `as`)."""
+    out = {}
+    texts = [t[1] for t in toks]
+    i, n = 0, len(texts)
+    depth = 0
+    while i < n:
+        t = texts[i]
+        if t in ("{", "(", "["):
+            depth += 1
+        elif t in ("}", ")", "]"):
+            depth -= 1
+        if t == "use" and depth == 0:
+            j = i + 1
+            while j < n and texts[j] != ";":
+                j += 1
+            _use_tree(texts[i + 1:j], [], out)
+            i = j
+        i += 1
+    return out
+
+
+def _use_tree(tx, prefix, out):
+    # tx: tokens of one use tree (without `use` and `;`)
+    if not tx:
+        return
+    if "{" in tx:
+        k = tx.index("{")
+        head = [x for x in tx[:k] if x != "::"]
+        # split the group at top-level commas
+        d = 0
+        cur = []
+        parts = []
+        for x in tx[k + 1:]:
+            if x == "{":
+                d += 1
+            elif x == "}":
+                if d == 0:
+                    break
+                d -= 1
+            if x == "," and d == 0:
+                parts.append(cur)
+                cur = []
+            else:
+                cur.append(x)
+        if cur:
+            parts.append(cur)
+        for p_ in parts:
+            _use_tree(p_, prefix + head, out)
+        return
+    segs = [x for x in tx if x != "::"]
+    alias = None
+    if "as" in segs:
+        k = segs.index("as")
+        alias = segs[k + 1]
+        segs = segs[:k]
+    if segs == ["self"]:
+        if prefix:
+            out[alias or prefix[-1]] = list(prefix)
+        return
+    if segs and segs[-1] == "*":
+        return
+    full = prefix + segs
+    if full:
+        out[alias or full[-1]] = full
+
+
+def canon_paths(tx, uses, kinds=None):
+    """Expand the first segment of every path through the file's `use` map (as the compiler would), so that
+    `mem::ManuallyDrop::new`, `ManuallyDrop::new` and `std::mem::ManuallyDrop::new` are one spelling."""
+    out = []
+    n = len(tx)
+    for i, x in enumerate(tx):
+        prev = tx[i - 1] if i else ""
+        nxt = tx[i + 1] if i + 1 < n else ""
+        if x in uses and prev not in (".", "::") and (nxt == "::" or x[0].isupper()) and not (prev in ("fn", "struct", "let", "mut", "for")):
+            full = uses[x]
+            if full[0] in ("core", "alloc"):
+                full = ["std"] + full[1:]
+            for k, seg in enumerate(full):
+                if k:
+                    out.append("::")
+                out.append(seg)
+        else:
+            out.append(x)
+    return out
+
+
+def method_minmax(tx):
+    """`A.min(B)` / `A.max(B)`  ->  `Ord::min(A, B)` (receiver = the postfix expression before the dot)."""
+    out = list(tx)
+    i = 0
+    while i < len(out):
+        if out[i] == "." and i + 2 < len(out) and out[i + 1] in ("min", "max") and out[i + 2] == "(":
+            # scan the receiver backwards: postfix chain of ident / literal / (...) / [...] / .field / path segments
+            j = i - 1
+            start = None
+            while j >= 0:
+                t = out[j]
+                if t in (")", "]"):
+                    d = 0
+                    while j >= 0:
+                        if out[j] in (")", "]"):
+                            d += 1
+                        elif out[j] in ("(", "["):
+                            d -= 1
+                            if d == 0:
+                                break
+                        j -= 1
+                    start = j
+                    j -= 1
+                    # a call/index is preceded by its callee expression
+                    continue
+                if re.fullmatch(r"[A-Za-z_][A-Za-z0-9_]*|[0-9][0-9A-Za-z_.]*", t) and t not in KEYWORDS - {"self", "Self"}:
+                    start = j
+                    if j - 1 >= 0 and out[j - 1] in (".", "::"):
+                        j -= 2
+                        continue
+                    break
+                break
+            if start is not None:
+                recv = out[start:i]
+                fn = out[i + 1]
+                out[start:i + 3] = ["Ord", "::", fn, "("] + recv + [","]
+                i = start + len(recv) + 5
+                continue
+        i += 1
+    return out
+
+
 def rewrite_aliases(tx):
     """Normalisations applied to BOTH sides."""
     out = []
     i = 0
     n = len(tx)
     while i < n:
-        # cmp::min / cmp::max == Ord::min / Ord::max
+        # cmp::min / cmp::max == Ord::min / Ord::max (any qualification)
         if tx[i] == "cmp" and i + 2 < n and tx[i + 1] == "::" and tx[i + 2] in ("min", "max"):
+            while len(out) >= 2 and out[-1] == "::" and out[-2] in ("std", "core"):
+                out = out[:-2]
             out += ["Ord", "::", tx[i + 2]]
             i += 3
+            continue
+        if tx[i] == "cmp" and i + 4 < n and tx[i + 1] == "::" and tx[i + 2] == "Ord" and tx[i + 3] == "::" and tx[i + 4] in ("min", "max"):
+            while len(out) >= 2 and out[-1] == "::" and out[-2] in ("std", "core"):
+                out = out[:-2]
+            out += ["Ord", "::", tx[i + 4]]
+            i += 5
             continue
         if tx[i] == "rayon" and i + 2 < n and tx[i + 1] == "::" and tx[i + 2] == "join":
             out += ["rayon_core", "::", "join"]
@@ -386,7 +524,7 @@ def remove_cancel_delta(name, tx):
     if name not in ("fn recurse", "fn par_quicksort"):
         return tx, counts
     # 1. signature
-    for pat, k in ((r" , (v\d+) : & AtomicBool \) -> bool", "signature: canceled parameter + bool result"),):
+    for pat, k in ((r" , (v\d+) : & (?:std :: sync :: atomic :: )?AtomicBool \) -> bool", "signature: canceled parameter + bool result"),):
         m = re.search(pat, s)
         if m:
             cvar = m.group(1)
@@ -407,9 +545,10 @@ def remove_cancel_delta(name, tx):
     if c:
         bump("recurse(.., canceled)", c)
     # 4. cancel arm
-    arm = " else if %s . load ( atomic :: Ordering :: Relaxed ) { break true ; }" % cvar
-    c = s.count(arm)
-    s = s.replace(arm, "")
+    ORD = r"(?:std :: sync :: )?(?:atomic :: )?Ordering :: (?:Relaxed|Acquire|SeqCst)"
+    arm = r" else if %s \. load \( %s \) \{ break true ; \}" % (cvar, ORD)
+    c = len(re.findall(arm, s))
+    s = re.sub(arm, "", s)
     if c:
         bump("else if canceled.load(Relaxed) { break true }", c)
     # 5. join result
@@ -424,9 +563,9 @@ def remove_cancel_delta(name, tx):
         if c:
             bump("break canceled1 | canceled2", c)
     # 6. par_quicksort early return
-    early = " if %s . load ( atomic :: Ordering :: Relaxed ) { return true ; }" % cvar
-    c = s.count(early)
-    s = s.replace(early, "")
+    early = r" if %s \. load \( %s \) \{ return true ; \}" % (cvar, ORD)
+    c = len(re.findall(early, s))
+    s = re.sub(early, "", s)
     if c:
         bump("if canceled.load(Relaxed) { return true }", c)
     # 7. tail call returning the result: `recurse ( .. )` as last expression vs `recurse ( .. ) ;`
@@ -465,6 +604,7 @@ DECL_DELTA = {
 def normalise_decl(name, tx):
     s = " ".join(tx)
     if name == "struct CopyOnDrop":
+        s = s.replace("std :: marker :: PhantomData", "PhantomData")
         s = s.replace("< 'a , T >", "< T >").replace(" marker : PhantomData < & 'a mut T > ,", "").replace(" , marker : PhantomData < & 'a mut T >", "")
         s = s.replace(" marker : PhantomData < & 'a mut T >", "")
     if name.startswith("impl Drop for CopyOnDrop"):
@@ -491,8 +631,11 @@ def compare(ours_path, ref_path):
     """Returns dict with per-item verdicts."""
     ours_src = open(ours_path, encoding="utf-8").read()
     ref_src = open(ref_path, encoding="utf-8").read()
-    o_items, o_order = split_items(strip_attributes(lex(ours_src)))
-    r_items, r_order = split_items(strip_attributes(lex(ref_src)))
+    o_toks = strip_attributes(lex(ours_src))
+    r_toks = strip_attributes(lex(ref_src))
+    o_items, o_order = split_items(o_toks)
+    r_items, r_order = split_items(r_toks)
+    o_uses, r_uses = parse_uses(o_toks), parse_uses(r_toks)
     res = {"items": [], "missing": [], "extra": [], "ours_sha256": hashlib.sha256(ours_src.encode()).hexdigest(),
            "ref_sha256": hashlib.sha256(ref_src.encode()).hexdigest()}
     for name in r_order:
@@ -503,8 +646,8 @@ def compare(ours_path, ref_path):
         if name not in o_items:
             res["missing"].append(name)
             continue
-        r = normalise_decl(name, rewrite_aliases(alpha(r_items[name])))
-        o = rewrite_aliases(alpha(o_items[name]))
+        r = normalise_decl(name, method_minmax(rewrite_aliases(canon_paths(alpha(r_items[name]), r_uses))))
+        o = method_minmax(rewrite_aliases(canon_paths(alpha(o_items[name]), o_uses)))
         o = normalise_decl(name, o)
         o, delta = remove_cancel_delta(name, o)
         o = renumber(o)
